@@ -100,6 +100,14 @@ pub fn run(seed: u64, n: usize, out: &mut Out, focus_tags: bool) {
             lines.push(format!("@@||cdn.test/x1$tag={}", r.pick(&tagpool)));
             lines.push(format!("||cdn.test/x2$important,tag={}", r.pick(&tagpool)));
             lines.push(format!("||cdn.test^$csp=tagged-csp,tag={}", r.pick(&tagpool)));
+            // the same rule under every tag (one bucket): whichever tag is enabled, its copy must be found
+            // behind the copies whose tags are not
+            if r.pct(60) {
+                for t in tagpool.iter() {
+                    lines.push(format!("@@||cdn.test/x1$tag={}", t));
+                    lines.push(format!("||cdn.test/x2$important,tag={}", t));
+                }
+            }
             // same bucket, same options, different tags (fusion candidates when optimised)
             let t = r.pick(&["adframe", "adimg"]);
             lines.push(format!("@@/{}/a$tag=t1", t));
